@@ -420,4 +420,562 @@ theorem readT_found (inner : CallInfo) (T : Str) (s : RS)
   unfold SLT linesMap
   exact List.mem_filterMap.mpr ⟨l, hl, hs⟩
 
+
+/-! ### every text at depth `δ ≥ 1` consists of lines nested at depth ≥ `δ`, and quiet ones -/
+
+/-- the lines of an error text are passed by the reader: no label, no `\` mark at a depth > 0 -/
+def ErrQuiet (errText : Nat → Str) : Prop :=
+  ∀ e l, l ∈ splitLines (errText e) →
+    afterLabel "Target".toList l = none ∧ afterLabel "Spec".toList l = none ∧
+      ¬ ((gutter l).2 = some '\\' ∧ 0 < (gutter l).1)
+
+theorem ErrQuiet.labelFree {errText : Nat → Str} (h : ErrQuiet errText) : ErrLabelFree errText :=
+  fun e l hl => (h e l hl).2.1
+
+/-- the first line is nested at depth ≥ `δ`; every line is, or is quiet -/
+def BranchText (δ : Nat) (T : Str) : Prop :=
+  (∃ hd tl, splitLines T = hd :: tl ∧ DeepAt δ hd) ∧ ∀ l, l ∈ splitLines T → DQ δ l
+
+theorem BranchText_mono {δ : Nat} {T : Str} (h : BranchText (δ + 1) T) : BranchText δ T := by
+  obtain ⟨⟨hd, tl, h1, h2⟩, h3⟩ := h
+  refine ⟨⟨hd, tl, h1, DeepAt_mono h2 (by omega)⟩, ?_⟩
+  intro l hl
+  rcases h3 l hl with h' | h'
+  · exact Or.inl (DeepAt_mono h' (by omega))
+  · exact Or.inr h'
+
+theorem BranchText_line (d : Nat) (hd : 1 ≤ d) (t body : Str) (ht : t = tickOf d ∨ t = "+ ".toList) (hb : NoNL body) :
+    BranchText d (indentOf d ++ t ++ body) := by
+  have htg : Gut t := by rcases ht with rfl | rfl; exact Gut_tickOf d; exact Gut_plus
+  have hnl : NoNL (indentOf d ++ t ++ body) := NoNL_append (Gut_NoNL (Gut_append (Gut_indentOf d) htg)) hb
+  rw [BranchText, splitLines_noNL _ hnl]
+  refine ⟨⟨_, [], rfl, DeepAt_indent d hd t body ht⟩, ?_⟩
+  intro l hl
+  simp only [List.mem_singleton] at hl
+  subst hl
+  exact Or.inl (DeepAt_indent d hd t body ht)
+
+theorem BranchText_err (d : Nat) (hd : 1 ≤ d) (errText : Nat → Str) (e : Nat) (he : ErrQuiet errText) :
+    BranchText d (indentOf d ++ tickOf d ++ errText e) := by
+  cases hs : splitLines (errText e) with
+  | nil => exact absurd hs (splitLines_ne_nil _)
+  | cons hd' tl =>
+    have hsp := splitLines_prefix _ (errText e) hd' tl (Gut_NoNL (Gut_append (Gut_indentOf d) (Gut_tickOf d))) hs
+    rw [BranchText, hsp]
+    refine ⟨⟨_, tl, rfl, DeepAt_indent d hd (tickOf d) hd' (Or.inl rfl)⟩, ?_⟩
+    intro l hl
+    rcases List.mem_cons.mp hl with hl | hl
+    · subst hl; exact Or.inl (DeepAt_indent d hd (tickOf d) hd' (Or.inl rfl))
+    · have := he e l (by rw [hs]; exact List.mem_cons_of_mem _ hl)
+      exact Or.inr ⟨this.1, this.2.2⟩
+
+theorem BranchText_remark (d : Nat) (m : Char) (s : Str) (hg : GPre (d + 3) s) (h : BranchText d s)
+    (hm : m = '\\' ∨ m = 'X') : BranchText d (remark d s m) := by
+  obtain ⟨g, x, rfl, hgut, hlen⟩ := hg
+  have hmg : isGutterChar m = true := by rcases hm with rfl | rfl <;> decide
+  obtain ⟨⟨hd0, tl0, hsp0, hdeep⟩, hall⟩ := h
+  cases hs : splitLines x with
+  | nil => exact absurd hs (splitLines_ne_nil x)
+  | cons hd' tl =>
+    have hg' := Gut_remark d g m hgut hmg
+    have hold := splitLines_prefix g x hd' tl (Gut_NoNL hgut) hs
+    rw [hold] at hsp0 hall
+    simp only [List.cons.injEq] at hsp0
+    obtain ⟨rfl, rfl⟩ := hsp0
+    have hnew : splitLines (remark d (g ++ x) m) = remark d (g ++ hd') m :: tl := by
+      rw [remark_prefix d g x m (by omega), remark_prefix d g hd' m (by omega)]
+      exact splitLines_prefix _ x hd' tl (Gut_NoNL hg') hs
+    rw [BranchText, hnew]
+    have hhead := DeepAt_remark d m hdeep (Nat.le_refl d) hm
+    refine ⟨⟨_, tl, rfl, hhead⟩, ?_⟩
+    intro l hl
+    rcases List.mem_cons.mp hl with hl | hl
+    · subst hl; exact Or.inl hhead
+    · exact hall l (List.mem_cons_of_mem _ hl)
+
+theorem BranchText_joinLines (d : Nat) : ∀ (segs : List Str), segs ≠ [] → (∀ s, s ∈ segs → BranchText d s) →
+    BranchText d (joinLines segs)
+  | [], h, _ => absurd rfl h
+  | x :: r, _, hall => by
+    rw [BranchText, splitLines_joinLines (x :: r) (by simp)]
+    obtain ⟨⟨hd, tl, hsp, hdeep⟩, _⟩ := hall x (by simp)
+    refine ⟨⟨hd, tl ++ r.flatMap splitLines, by simp [hsp], hdeep⟩, ?_⟩
+    intro l hl
+    obtain ⟨s, hs, hls⟩ := List.mem_flatMap.mp hl
+    exact (hall s hs).2 l hls
+
+theorem allSegs_BranchText (fs : Array Frame) (errText : Nat → Str) (rootError width depth : Nat) (lb : Bool)
+    (recur : Nat → Option Nat → Bool → Str) (hd : 1 ≤ depth) (hfs : FramesOneLine fs) (herr : ErrQuiet errText) :
+    ∀ (rows : List Row) (prev : Option Nat),
+    (∀ r, r ∈ rows → ∀ b, b ∈ r.branches → ∀ p l, BranchText depth (recur b p l)) →
+    ∀ s, s ∈ allSegs fs errText rootError width depth lb recur rows prev → BranchText depth s
+  | [], _, _, s, hs => by simp [allSegs] at hs
+  | r :: rest, prev, hrec, s, hs => by
+    have ih := allSegs_BranchText fs errText rootError width depth lb recur hd hfs herr rest
+    simp only [allSegs] at hs
+    cases hf : fs[r.frame]? with
+    | none =>
+      rw [hf] at hs
+      exact ih prev (fun r' hr' => hrec r' (List.mem_cons_of_mem _ hr')) s hs
+    | some f =>
+      rw [hf] at hs
+      obtain ⟨hns, hnt⟩ := hfs _ f hf
+      rcases List.mem_append.mp hs with h | h
+      · simp only [rowSegs, List.mem_append] at h
+        rcases h with (h | h) | h
+        · split at h
+          · simp only [List.mem_singleton] at h; subst h
+            rw [traceLine_target]
+            exact BranchText_line depth hd _ _ (Or.inl rfl)
+              (NoNL_append (NoNL_append (NoNL_lit "Target" (by decide)) (NoNL_lit ": " (by decide))) (formatValue_NoNL _ _ _ hnt))
+          · simp at h
+        · cases hb : r.branches.reverse with
+          | nil =>
+            rw [hb] at h
+            simp only [List.mem_singleton] at h; subst h
+            rw [traceLine_spec depth width _ f (tickOf_length depth)]
+            exact BranchText_line depth hd _ _ (Or.inl rfl)
+              (NoNL_append (NoNL_append (NoNL_lit "Spec" (by decide)) (NoNL_lit ": " (by decide))) (formatValue_NoNL _ _ _ hns))
+          | cons lastB revInit =>
+            rw [hb] at h
+            have hbs := branches_of_reverse hb
+            simp only [List.mem_append, List.mem_singleton, List.mem_map] at h
+            rcases h with (h | ⟨b, hb', h⟩) | h
+            · subst h
+              rw [traceLine_spec depth width _ f rfl]
+              exact BranchText_line depth hd _ _ (Or.inr rfl)
+                (NoNL_append (NoNL_append (NoNL_lit "Spec" (by decide)) (NoNL_lit ": " (by decide))) (formatValue_NoNL _ _ _ hns))
+            · subst h; exact hrec r (by simp) b (by rw [hbs]; simp [hb']) _ _
+            · subst h; exact hrec r (by simp) lastB (by rw [hbs]; simp) _ _
+        · cases he : r.error with
+          | none => rw [he] at h; exact absurd h (by simp)
+          | some e =>
+            rw [he] at h
+            by_cases hne : (e != rootError) = true
+            · simp only [hne, if_true, List.mem_singleton] at h; subst h
+              exact BranchText_err depth hd errText e herr
+            · simp [hne] at h
+      · exact ih (some f.tid) (fun r' hr' => hrec r' (List.mem_cons_of_mem _ hr')) s h
+
+/-- **the text of a branch (any depth `d ≥ 1`, any marks) is read over without touching the targets
+    in force at depths `< d`** — its lines are nested at depth ≥ `d` or quiet -/
+theorem branch_text (fs : Array Frame) (errText : Nat → Str) (rootError width : Nat)
+    (hfs : FramesOneLine fs) (herr : ErrQuiet errText) :
+    ∀ (fuel h d : Nat) (prev : Option Nat) (lb : Bool), Renderable fs fuel h → 1 ≤ d →
+      BranchText d (formatTrace fs errText rootError width fuel h d prev lb)
+  | 0, _, _, _, _, hr, _ => by simp [Renderable] at hr
+  | fuel + 1, h, d, prev, lb, hr, hd => by
+    obtain ⟨hne, hrows⟩ := hr
+    rw [formatTrace_succ]
+    have hrec : ∀ r, r ∈ unpack fs h → ∀ b, b ∈ r.branches → ∀ p l,
+        BranchText d (formatTrace fs errText rootError width fuel b (d + 1) p l) :=
+      fun r hr b hb p l => BranchText_mono
+        (branch_text fs errText rootError width hfs herr fuel b (d + 1) p l ((hrows r hr).2 b hb) (by omega))
+    have hall := allSegs_BranchText fs errText rootError width d lb
+      (fun b p l => formatTrace fs errText rootError width fuel b (d + 1) p l) hd hfs herr (unpack fs h) prev hrec
+    have hgp : ∀ s, s ∈ allSegs fs errText rootError width d lb
+        (fun b p l => formatTrace fs errText rootError width fuel b (d + 1) p l) (unpack fs h) prev → GPre (d + 3) s := by
+      apply allSegs_GPre
+      intro r hr b hb p l
+      exact GPre_mono (by omega) (formatTrace_GPre fs errText rootError width fuel b (d + 1) p l ((hrows r hr).2 b hb))
+    have hsne := allSegs_ne_nil fs errText rootError width d lb
+      (fun b p l => formatTrace fs errText rootError width fuel b (d + 1) p l) (unpack fs h) prev hne
+      (fun r hr => (hrows r hr).1)
+    simp only []
+    have hd0 : (d == 0) = false := by simp; omega
+    rw [hd0]
+    simp only [Bool.false_eq_true, if_false]
+    have h1 : ∀ s, s ∈ setHead (allSegs fs errText rootError width d lb
+        (fun b p l => formatTrace fs errText rootError width fuel b (d + 1) p l) (unpack fs h) prev)
+        (fun s => remark d s '\\') → BranchText d s ∧ GPre (d + 3) s := by
+      intro s hs
+      rcases mem_setHead _ _ hs with h' | ⟨s0, h0, rfl⟩
+      · exact ⟨hall s h', hgp s h'⟩
+      · exact ⟨BranchText_remark d '\\' s0 (hgp s0 h0) (hall s0 h0) (Or.inl rfl),
+          GPre_remark d '\\' (hgp s0 h0) (by omega) (by decide)⟩
+    split
+    · apply BranchText_joinLines d _ (setLast_ne_nil _ (setHead_ne_nil _ hsne))
+      intro s hs
+      rcases mem_setLast _ _ hs with h' | ⟨s0, h0, rfl⟩
+      · exact (h1 s h').1
+      · exact BranchText_remark d 'X' s0 (h1 s0 h0).2 (h1 s0 h0).1 (Or.inr rfl)
+    · exact BranchText_joinLines d _ (setHead_ne_nil _ hsne) (fun s hs => (h1 s hs).1)
+
+/-- reading a branch keeps the targets in force below its depth -/
+theorem readT_branch (inner : CallInfo) (T : Str) (δ : Nat) (h : BranchText δ T) (s : RS) :
+    ∀ i, i < δ → getAt (readT inner T s).1 i = getAt s.1 i :=
+  foldl_rstep_DQ inner δ _ s h.2
+
+
+/-! ### every `Spec:` line of a text is the line of a rendered row -/
+
+theorem SLT_targetLine (d w : Nat) (f : Frame) (h : NoNL f.target) :
+    SLT (traceLine d w "Target".toList (tickOf d) f.target f.tlen) = [] := by
+  unfold SLT linesMap
+  rw [splitLines_noNL _ (NoNL_targetLine d w f h), traceLine_target]
+  simp only [List.filterMap_cons, List.filterMap_nil]
+  rw [afterLabel_gutter _ _ _ (Gut_append (Gut_indentOf d) (Gut_tickOf d)), afterLabel_spec_target]
+
+theorem SLT_err (d : Nat) (e : Str) (he : ∀ l, l ∈ splitLines e → afterLabel "Spec".toList l = none) :
+    SLT (indentOf d ++ tickOf d ++ e) = [] := by
+  unfold SLT linesMap
+  apply List.filterMap_eq_nil_iff.mpr
+  intro l hl
+  cases hs : splitLines e with
+  | nil => exact absurd hs (splitLines_ne_nil e)
+  | cons hd' tl =>
+    rw [splitLines_prefix _ e hd' tl (Gut_NoNL (Gut_append (Gut_indentOf d) (Gut_tickOf d))) hs] at hl
+    rcases List.mem_cons.mp hl with hl | hl
+    · subst hl
+      rw [afterLabel_gutter _ _ _ (Gut_append (Gut_indentOf d) (Gut_tickOf d))]
+      exact he hd' (by rw [hs]; simp)
+    · exact he l (by rw [hs]; exact List.mem_cons_of_mem _ hl)
+
+theorem allSegs_SLT_mem (fs : Array Frame) (errText : Nat → Str) (rootError width depth : Nat) (lb : Bool)
+    (recur : Nat → Option Nat → Bool → Str) (hfs : FramesOneLine fs) (herr : ErrLabelFree errText) :
+    ∀ (rows : List Row) (prev : Option Nat) (seg shown : Str),
+    seg ∈ allSegs fs errText rootError width depth lb recur rows prev → shown ∈ SLT seg →
+    ∃ r, r ∈ rows ∧ ((∃ f, fs[r.frame]? = some f ∧ shown = specShown width f depth) ∨
+      (∃ b, b ∈ r.branches ∧ ∃ p l, shown ∈ SLT (recur b p l)))
+  | [], _, seg, _, hs, _ => by simp [allSegs] at hs
+  | r :: rest, prev, seg, shown, hs, hsh => by
+    have ih := allSegs_SLT_mem fs errText rootError width depth lb recur hfs herr rest
+    have lift : (∃ r', r' ∈ rest ∧ ((∃ f, fs[r'.frame]? = some f ∧ shown = specShown width f depth) ∨
+        (∃ b, b ∈ r'.branches ∧ ∃ p l, shown ∈ SLT (recur b p l)))) →
+        ∃ r', r' ∈ r :: rest ∧ ((∃ f, fs[r'.frame]? = some f ∧ shown = specShown width f depth) ∨
+        (∃ b, b ∈ r'.branches ∧ ∃ p l, shown ∈ SLT (recur b p l))) :=
+      fun ⟨r', h1, h2⟩ => ⟨r', List.mem_cons_of_mem _ h1, h2⟩
+    simp only [allSegs] at hs
+    cases hf : fs[r.frame]? with
+    | none => rw [hf] at hs; exact lift (ih prev seg shown hs hsh)
+    | some f =>
+      rw [hf] at hs
+      obtain ⟨hns, hnt⟩ := hfs _ f hf
+      rcases List.mem_append.mp hs with h | h
+      · refine ⟨r, by simp, ?_⟩
+        simp only [rowSegs, List.mem_append] at h
+        rcases h with (h | h) | h
+        · exfalso
+          split at h
+          · simp only [List.mem_singleton] at h; subst h
+            rw [SLT_targetLine depth width f hnt] at hsh; simp at hsh
+          · simp at h
+        · cases hb : r.branches.reverse with
+          | nil =>
+            rw [hb] at h
+            simp only [List.mem_singleton] at h; subst h
+            rw [SLT_specLine depth width _ f (Gut_tickOf depth) (tickOf_length depth) hns] at hsh
+            simp only [List.mem_singleton] at hsh
+            exact Or.inl ⟨f, hf, hsh⟩
+          | cons lastB revInit =>
+            rw [hb] at h
+            have hbs := branches_of_reverse hb
+            simp only [List.mem_append, List.mem_singleton, List.mem_map] at h
+            rcases h with (h | ⟨b, hb', h⟩) | h
+            · subst h
+              rw [SLT_specLine depth width _ f Gut_plus rfl hns] at hsh
+              simp only [List.mem_singleton] at hsh
+              exact Or.inl ⟨f, hf, hsh⟩
+            · subst h; exact Or.inr ⟨b, by rw [hbs]; simp [hb'], _, _, hsh⟩
+            · subst h; exact Or.inr ⟨lastB, by rw [hbs]; simp, _, _, hsh⟩
+        · exfalso
+          cases he : r.error with
+          | none => rw [he] at h; exact absurd h (by simp)
+          | some e =>
+            rw [he] at h
+            by_cases hne : (e != rootError) = true
+            · simp only [hne, if_true, List.mem_singleton] at h; subst h
+              rw [SLT_err depth _ (herr e)] at hsh; simp at hsh
+            · simp [hne] at h
+      · exact lift (ih (some f.tid) seg shown h hsh)
+
+theorem SLT_mem_shown (fs : Array Frame) (errText : Nat → Str) (rootError width : Nat)
+    (hfs : FramesOneLine fs) (herr : ErrLabelFree errText) :
+    ∀ (fuel h d : Nat) (prev : Option Nat) (lb : Bool), Renderable fs fuel h →
+      ∀ shown, shown ∈ SLT (formatTrace fs errText rootError width fuel h d prev lb) →
+      ∃ p, p ∈ shownRows fs fuel h d ∧ ∃ f, fs[p.2.frame]? = some f ∧ shown = specShown width f p.1
+  | 0, _, _, _, _, hr, _, _ => by simp [Renderable] at hr
+  | fuel + 1, h, d, prev, lb, hr, shown, hsh => by
+    have hr' := hr
+    obtain ⟨_, hrows⟩ := hr
+    unfold SLT at hsh
+    rw [linesMap_formatTrace _ (afterLabel_nil _ (by decide)) (fun g g' x hg hg' => afterLabel_gut_irrel _ g g' x hg hg')
+      fs errText rootError width fuel h d prev lb hr'] at hsh
+    obtain ⟨seg, hseg, hsh'⟩ := List.mem_flatMap.mp hsh
+    obtain ⟨r, hrm, hcase⟩ := allSegs_SLT_mem fs errText rootError width d lb _ hfs herr _ _ seg shown hseg hsh'
+    rcases hcase with ⟨f, hf, heq⟩ | ⟨b, hb, p, l, hin⟩
+    · refine ⟨(d, r), ?_, f, hf, heq⟩
+      rw [shownRows_succ]
+      exact List.mem_flatMap.mpr ⟨r, hrm, by simp⟩
+    · obtain ⟨q, hq, f, hf, heq⟩ := SLT_mem_shown fs errText rootError width hfs herr fuel b (d + 1) p l
+        ((hrows r hrm).2 b hb) shown hin
+      refine ⟨q, ?_, f, hf, heq⟩
+      rw [shownRows_succ]
+      exact List.mem_flatMap.mpr ⟨r, hrm, List.mem_cons_of_mem _ (List.mem_flatMap.mpr ⟨b, hb, hq⟩)⟩
+
+
+/-! ### the rows on the path of the error: their `Target:` / `Spec:` lines, read in order -/
+
+/-- `x` shows the target of every call whose target has the identity `τ` -/
+def ShowsTid (fs : Array Frame) (τ : Nat) (x : Str) : Prop :=
+  ∀ (j : Nat) (f : Frame), 1 ≤ j → fs[j]? = some f → f.tid = τ → showsValue f.target f.tlen x = true
+
+/-- the identity of a target determines its text -/
+def TidOK (fs : Array Frame) : Prop :=
+  ∀ (j j' : Nat) (f f' : Frame), 1 ≤ j → 1 ≤ j' → fs[j]? = some f → fs[j']? = some f' → f.tid = f'.tid →
+    f.target = f'.target ∧ f.tlen = f'.tlen
+
+/-- the target in force at depth `d` is the previous row's target -/
+def LevelInv (fs : Array Frame) (d : Nat) (prev : Option Nat) (tg : List (Option Str)) : Prop :=
+  ∀ τ, prev = some τ → ∃ x, getAt tg d = some x ∧ ShowsTid fs τ x
+
+/-- the `Target:` / `Spec:` lines of rows (without the texts of their branches and their error lines) -/
+def pathLines (fs : Array Frame) (width d : Nat) : List Row → Option Nat → List Str
+  | [], _ => []
+  | r :: rest, prev =>
+    match fs[r.frame]? with
+    | none => pathLines fs width d rest prev
+    | some f =>
+      (if prev != some f.tid then [traceLine d width "Target".toList (tickOf d) f.target f.tlen] else []) ++
+      [traceLine d width "Spec".toList (if r.branches = [] then tickOf d else "+ ".toList) f.spec f.slen] ++
+      pathLines fs width d rest (some f.tid)
+
+theorem pathLines_ne_nil (fs : Array Frame) (width d : Nat) (r : Row) (rest : List Row) (prev : Option Nat)
+    (f : Frame) (hf : fs[r.frame]? = some f) : pathLines fs width d (r :: rest) prev ≠ [] := by
+  simp only [pathLines, hf]
+  split <;> simp
+
+/-- every line of `pathLines` is a single line and the first one is a line of depth `d` -/
+theorem pathLines_lines (fs : Array Frame) (width d : Nat) (hfs : FramesOneLine fs) :
+    ∀ (R : List Row) (prev : Option Nat) (l : Str), l ∈ pathLines fs width d R prev →
+      NoNL l ∧ ∃ t body, l = indentOf d ++ t ++ body ∧ (t = tickOf d ∨ t = "+ ".toList) ∧ NoNL body
+  | [], _, l, h => by simp [pathLines] at h
+  | r :: rest, prev, l, h => by
+    have ih := pathLines_lines fs width d hfs rest
+    simp only [pathLines] at h
+    cases hf : fs[r.frame]? with
+    | none => rw [hf] at h; exact ih prev l h
+    | some f =>
+      rw [hf] at h
+      obtain ⟨hns, hnt⟩ := hfs _ f hf
+      simp only [List.mem_append, List.mem_singleton] at h
+      rcases h with (h | h) | h
+      · split at h
+        · simp only [List.mem_singleton] at h; subst h
+          refine ⟨NoNL_targetLine d width f hnt, tickOf d, _, traceLine_target d width f, Or.inl rfl, ?_⟩
+          exact NoNL_append (NoNL_append (NoNL_lit "Target" (by decide)) (NoNL_lit ": " (by decide))) (formatValue_NoNL _ _ _ hnt)
+        · simp at h
+      · subst h
+        have ht : (if r.branches = [] then tickOf d else "+ ".toList) = tickOf d ∨
+            (if r.branches = [] then tickOf d else "+ ".toList) = "+ ".toList := by
+          split
+          · exact Or.inl rfl
+          · exact Or.inr rfl
+        have htl : (if r.branches = [] then tickOf d else "+ ".toList).length = 2 := by
+          split
+          · exact tickOf_length d
+          · rfl
+        refine ⟨NoNL_specLine d width _ f ht hns, _, _, traceLine_spec d width _ f htl, ht, ?_⟩
+        exact NoNL_append (NoNL_append (NoNL_lit "Spec" (by decide)) (NoNL_lit ": " (by decide))) (formatValue_NoNL _ _ _ hns)
+      · exact ih (some f.tid) l h
+
+/-- **reading the lines of the rows on the path**: afterwards the target in force at depth `d` is the
+    target of the last row; and if the last row's `Spec:` line shows the spec looked for, the
+    candidates are that target -/
+theorem read_pathLines (inner : CallInfo) (fs : Array Frame) (width d : Nat) (htid : TidOK fs) :
+    ∀ (R : List Row) (last : Row) (prev : Option Nat) (s : RS) (fl : Frame),
+    (∀ r, r ∈ R ++ [last] → 1 ≤ r.frame ∧ (fs[r.frame]?).isSome = true) →
+    fs[last.frame]? = some fl → LevelInv fs d prev s.1 →
+    let s1 := (pathLines fs width d (R ++ [last]) prev).foldl (rstep inner) s
+    LevelInv fs d (some fl.tid) s1.1 ∧
+    (showsValue inner.spec inner.slen (specShown width fl d) = true →
+      ∃ x, s1.2 = [x] ∧ ShowsTid fs fl.tid x)
+  | [], last, prev, s, fl, hfr, hfl, hinv => by
+    have hj := (hfr last (by simp)).1
+    simp only [List.nil_append, pathLines, hfl, List.foldl_append, List.foldl_cons, List.foldl_nil]
+    -- after the `Target:` line (if any) the target in force is the row's
+    have hT : ∀ s0 : RS, LevelInv fs d prev s0.1 →
+        LevelInv fs d (some fl.tid) ((if (prev != some fl.tid) = true then
+          [traceLine d width "Target".toList (tickOf d) fl.target fl.tlen] else []).foldl (rstep inner) s0).1 := by
+      intro s0 h0
+      split
+      · simp only [List.foldl_cons, List.foldl_nil, rstep_targetLine]
+        intro τ hτ
+        simp only [Option.some.injEq] at hτ
+        subst hτ
+        refine ⟨_, getAt_setAt_same _ _ _, ?_⟩
+        intro j f hj' hf ht
+        obtain ⟨h1, h2⟩ := htid j last.frame f fl hj' hj hf hfl ht
+        rw [h1, h2]
+        exact showsValue_formatValue _ _ _
+      · rename_i hp
+        simp only [List.foldl_nil]
+        have : prev = some fl.tid := by simpa using hp
+        rw [← this]; exact h0
+    have h1 := hT s hinv
+    generalize ((if (prev != some fl.tid) = true then
+          [traceLine d width "Target".toList (tickOf d) fl.target fl.tlen] else []).foldl (rstep inner) s) = sT at h1
+    have ht : (if last.branches = [] then tickOf d else "+ ".toList) = tickOf d ∨
+        (if last.branches = [] then tickOf d else "+ ".toList) = "+ ".toList := by
+      split
+      · exact Or.inl rfl
+      · exact Or.inr rfl
+    rw [rstep_specLine inner sT d width _ fl ht]
+    refine ⟨h1, ?_⟩
+    intro hsh
+    simp only [hsh, if_true]
+    obtain ⟨x, hx1, hx2⟩ := h1 fl.tid rfl
+    exact ⟨x, by rw [hx1], hx2⟩
+  | r :: R, last, prev, s, fl, hfr, hfl, hinv => by
+    have hr := hfr r (by simp)
+    obtain ⟨f, hf⟩ := Option.isSome_iff_exists.mp hr.2
+    simp only [List.cons_append, pathLines, hf, List.foldl_append, List.foldl_cons, List.foldl_nil]
+    apply read_pathLines inner fs width d htid R last (some f.tid) _ fl
+      (fun r' hr' => hfr r' (by simp only [List.cons_append]; exact List.mem_cons_of_mem _ hr')) hfl
+    -- the invariant after the lines of `r`
+    have hT : LevelInv fs d (some f.tid) ((if (prev != some f.tid) = true then
+          [traceLine d width "Target".toList (tickOf d) f.target f.tlen] else []).foldl (rstep inner) s).1 := by
+      split
+      · simp only [List.foldl_cons, List.foldl_nil, rstep_targetLine]
+        intro τ hτ
+        simp only [Option.some.injEq] at hτ
+        subst hτ
+        refine ⟨_, getAt_setAt_same _ _ _, ?_⟩
+        intro j f' hj' hf' ht
+        obtain ⟨h1, h2⟩ := htid j r.frame f' f hj' hr.1 hf' hf ht
+        rw [h1, h2]
+        exact showsValue_formatValue _ _ _
+      · rename_i hp
+        simp only [List.foldl_nil]
+        have : prev = some f.tid := by simpa using hp
+        rw [← this]; exact hinv
+    generalize ((if (prev != some f.tid) = true then
+          [traceLine d width "Target".toList (tickOf d) f.target f.tlen] else []).foldl (rstep inner) s) = sT at hT
+    have ht : (if r.branches = [] then tickOf d else "+ ".toList) = tickOf d ∨
+        (if r.branches = [] then tickOf d else "+ ".toList) = "+ ".toList := by
+      split
+      · exact Or.inl rfl
+      · exact Or.inr rfl
+    rw [rstep_specLine inner sT d width _ f ht]
+    exact hT
+
+
+/-! ### the pieces of a text whose rows are on the path -/
+
+/-- the texts of the branches of a row -/
+def branchTexts (recur : Nat → Option Nat → Bool → Str) (tid : Nat) (lb : Bool) (br : List Nat) : List Str :=
+  match br.reverse with
+  | [] => []
+  | lastB :: revInit => revInit.reverse.map (fun b => recur b (some tid) false) ++ [recur lastB (some tid) lb]
+
+theorem rowSegs_noErr (errText : Nat → Str) (rootError width depth : Nat) (lb : Bool)
+    (recur : Nat → Option Nat → Bool → Str) (f : Frame) (r : Row) (prev : Option Nat)
+    (he : rowErrLine rootError r = false) :
+    rowSegs errText rootError width depth lb recur f r prev =
+      (if prev != some f.tid then [traceLine depth width "Target".toList (tickOf depth) f.target f.tlen] else []) ++
+      [traceLine depth width "Spec".toList (if r.branches = [] then tickOf depth else "+ ".toList) f.spec f.slen] ++
+      branchTexts recur f.tid lb r.branches := by
+  unfold rowSegs branchTexts
+  have hne' : ∀ e, r.error = some e → (e != rootError) = false := by
+    intro e hre
+    unfold rowErrLine at he
+    rw [hre] at he
+    exact he
+  cases hb : r.branches.reverse with
+  | nil =>
+    have hbn : r.branches = [] := by simpa using hb
+    cases hre : r.error with
+    | none => simp [hbn]
+    | some e => simp [hbn, hne' e hre]
+  | cons lastB revInit =>
+    have hbs := branches_of_reverse hb
+    have hne : r.branches ≠ [] := by rw [hbs]; simp
+    cases hre : r.error with
+    | none => simp [hne]
+    | some e => simp [hne, hne' e hre]
+
+theorem allSegs_path (fs : Array Frame) (errText : Nat → Str) (rootError width d : Nat) (lb : Bool)
+    (recur : Nat → Option Nat → Bool → Str) : ∀ (R : List Row) (last : Row) (R2 : List Row) (prev : Option Nat) (fl : Frame),
+    (∀ r, r ∈ R → r.branches = [] ∧ rowErrLine rootError r = false ∧ (fs[r.frame]?).isSome = true) →
+    rowErrLine rootError last = false → fs[last.frame]? = some fl →
+    allSegs fs errText rootError width d lb recur (R ++ [last] ++ R2) prev =
+      pathLines fs width d (R ++ [last]) prev ++ branchTexts recur fl.tid lb last.branches ++
+        allSegs fs errText rootError width d lb recur R2 (some fl.tid)
+  | [], last, R2, prev, fl, _, hel, hfl => by
+    simp only [List.nil_append, List.cons_append, allSegs, pathLines, hfl, rowSegs_noErr _ _ _ _ _ _ _ _ _ hel]
+    simp
+  | r :: R, last, R2, prev, fl, hR, hel, hfl => by
+    obtain ⟨hb, he, hs⟩ := hR r (by simp)
+    obtain ⟨f, hf⟩ := Option.isSome_iff_exists.mp hs
+    have ih := allSegs_path fs errText rootError width d lb recur R last R2 (some f.tid) fl
+      (fun r' hr' => hR r' (List.mem_cons_of_mem _ hr')) hel hfl
+    simp only [List.cons_append, allSegs, pathLines, hf, rowSegs_noErr _ _ _ _ _ _ _ _ _ he]
+    rw [ih]
+    simp [hb, branchTexts]
+
+theorem foldl_readT_lines (inner : CallInfo) : ∀ (Ls : List Str) (s : RS), (∀ l, l ∈ Ls → NoNL l) →
+    Ls.foldl (fun s seg => readT inner seg s) s = Ls.foldl (rstep inner) s
+  | [], _, _ => rfl
+  | l :: rest, s, h => by
+    simp only [List.foldl_cons]
+    rw [readT_line inner l (h l (by simp))]
+    exact foldl_readT_lines inner rest _ (fun l' hl' => h l' (List.mem_cons_of_mem _ hl'))
+
+theorem setHead_append {g : Str → Str} : ∀ (A B : List Str), A ≠ [] → setHead (A ++ B) g = setHead A g ++ B
+  | [], _, h => absurd rfl h
+  | a :: A, B, _ => rfl
+
+theorem setLast_append_ne {g : Str → Str} (A B : List Str) (hB : B ≠ []) : setLast (A ++ B) g = A ++ setLast B g := by
+  obtain ⟨init, x, rfl⟩ := exists_dropLast_getLast B hB
+  rw [← List.append_assoc, setLast_append, setLast_append, List.append_assoc]
+
+/-- reading the lines of the path rows when the first one carries the `\` mark -/
+theorem read_marked_pathLines (inner : CallInfo) (fs : Array Frame) (width d : Nat) (hd : 1 ≤ d)
+    (hfs : FramesOneLine fs) (R : List Row) (prev : Option Nat) (s : RS)
+    (hne : pathLines fs width d R prev ≠ []) :
+    (setHead (pathLines fs width d R prev) (fun x => remark d x '\\')).foldl (fun s seg => readT inner seg s) s =
+      (pathLines fs width d R prev).foldl (rstep inner) (copyUp d s) := by
+  have hl := pathLines_lines fs width d hfs R prev
+  cases hp : pathLines fs width d R prev with
+  | nil => exact absurd hp hne
+  | cons u1 rest =>
+    rw [hp] at hl
+    obtain ⟨_, t, body, rfl, ht, hb⟩ := hl u1 (by simp)
+    simp only [setHead, List.foldl_cons]
+    rw [readT_marked_line inner s d hd t body ht hb]
+    exact foldl_readT_lines inner rest _ (fun l hl' => (hl l (List.mem_cons_of_mem _ hl')).1)
+
+/-- **reading a whole text whose rows are on the path**: the lines of the path rows are read from
+    the entry state (after the copy the `\` mark asks for), then the remaining pieces (the `X`
+    mark, if any, is on the last of them) -/
+theorem readT_path_text (inner : CallInfo) (fs : Array Frame) (errText : Nat → Str) (rootError width fuel h d : Nat)
+    (prev : Option Nat) (hfs : FramesOneLine fs) (R : List Row) (Rest : List Str) (s : RS)
+    (hU : allSegs fs errText rootError width d true
+      (fun b p l => formatTrace fs errText rootError width fuel b (d + 1) p l) (unpack fs h) prev =
+      pathLines fs width d R prev ++ Rest)
+    (hne : pathLines fs width d R prev ≠ [])
+    (hlle : lastErrLine fs rootError (unpack fs h) false = true → Rest ≠ []) :
+    readT inner (formatTrace fs errText rootError width (fuel + 1) h d prev true) s =
+      (if d ≠ 0 ∧ lastErrLine fs rootError (unpack fs h) false = true
+        then setLast Rest (fun x => remark d x 'X') else Rest).foldl (fun s seg => readT inner seg s)
+        ((pathLines fs width d R prev).foldl (rstep inner) (if d = 0 then s else copyUp d s)) := by
+  rw [formatTrace_succ]
+  simp only [hU]
+  by_cases hd0 : d = 0
+  · subst hd0
+    simp only [beq_self_eq_true, if_true, ne_eq, not_true_eq_false, false_and, if_false]
+    rw [readT_joinLines inner _ (by simp [hne]), List.foldl_append,
+      foldl_readT_lines inner _ s (fun l hl => (pathLines_lines fs width 0 hfs R prev l hl).1)]
+  · have hdb : (d == 0) = false := by simp [hd0]
+    simp only [hdb, Bool.false_eq_true, if_false, Bool.not_true, Bool.false_or, hd0, ne_eq, not_false_eq_true, true_and]
+    rw [setHead_append _ _ hne]
+    by_cases hl : lastErrLine fs rootError (unpack fs h) false = true
+    · simp only [hl, if_true]
+      rw [setLast_append_ne _ _ (hlle hl),
+        readT_joinLines inner _ (by simp [setHead_ne_nil _ hne]), List.foldl_append,
+        read_marked_pathLines inner fs width d (by omega) hfs R prev s hne]
+    · simp only [hl, Bool.false_eq_true, if_false]
+      rw [readT_joinLines inner _ (by simp [setHead_ne_nil _ hne]), List.foldl_append,
+        read_marked_pathLines inner fs width d (by omega) hfs R prev s hne]
+
 end Glom.C05
